@@ -4,7 +4,8 @@ component through vf.c14_harness and returns the observation log.  Nothing in he
 A case (JSON-able)::
 
     {"transports": [{"kind": "websocket"|"rawsocket", "ser": "json", "max_retries": 2, "initial_retry_delay": 1.5,
-                     "retry_delay_growth": 1.5, "retry_delay_jitter": 0.1, "max_retry_delay": 5, "ep": "url"|"dict"|"unix"}, ..],
+                     "retry_delay_growth": 1.5, "retry_delay_jitter": 0.1, "max_retry_delay": 5, "ep": "url"|"dict"|"unix",
+                     "tls": True (optional: a TLS transport - wss:// / rss:// URL, asyncio endpoint dict with tls=True)}, ..],
      "main": None | "sync" | "async",          # Component(main=...) and whether it completes at join time or later
      "fatal": None | "always" | "never" | "oserror" | "apperror" | "nth:<k>",     # is_fatal classifier
      "script": ["R", "H", "Hd", "A", "L", "Lc", "K", "G", "M", "E", ...],  # outcome of attempt 0, 1, ..; afterwards "R"
@@ -31,6 +32,17 @@ Outcome alphabet (one letter per connection attempt; what the 'network' and the 
     Gl  WELCOME, the application calls session.leave(), TCP is lost BEFORE the router's GOODBYE reply
     Ml  WELCOME, main() returns (-> the component calls leave()), TCP is lost BEFORE the router's GOODBYE reply
     J   WELCOME, then nothing: the session stays joined until the end of the run        [last letter of a script]
+  WHAT the network boundary reports for a failure (the exception class is part of the workload; see failure_reason()):
+    Rr / Rt / Rg  connection refused / timed out / name not resolved, reported with the exception class the FRAMEWORK's own
+        connect call uses (Twisted: twisted.internet.error.ConnectionRefusedError / TimeoutError / DNSLookupError - none
+        of them an OSError; asyncio: TimeoutError, socket.gaierror - OSErrors with other args than a refusal)
+    Tv / Tw  TLS handshake fails on a TLS transport (certificate verify failed / peer does not speak TLS).  asyncio:
+        loop.create_connection() RAISES ssl.SSLCertVerificationError / ssl.SSLError (an OSError with args (errno, text));
+        the protocol never sees connection_made.  Twisted: the endpoint Deferred has fired (TCP up, protocol connected),
+        then connectionLost(Failure(OpenSSL.SSL.Error([(lib, func, reason)]))) - both probed against the real frameworks.
+    Ds  transport up (TLS transport), TLS-layer error (bad record) ends the connection after the client's handshake octets
+    Ls  WELCOME, then the connection ends with a TLS-layer error
+  (T*/Ds/Ls are only scripted for cases whose transports are all TLS transports: wss:// / rss:// / endpoint tls=True.)
 (stop() at phase "joined" followed by L/Lc is the third "leave requested, lost before the reply" variant.)
 Within one attempt no virtual time passes: the router reacts immediately and compliantly (closing handshakes are
 answered, TCP is dropped after them), so the end of an attempt has ONE virtual time stamp.
@@ -45,7 +57,9 @@ from . import c14_harness as H
 from .wamp_harness import Outcome
 
 PHASES = ("delay", "inflight", "connected", "handshaken", "joined")
-JOINING = ("L", "Lc", "K", "G", "M", "E", "Gl", "Ml", "J")
+JOINING = ("L", "Lc", "K", "G", "M", "E", "Gl", "Ml", "J", "Ls")
+NATIVE_REFUSALS = {"tx": ("Rr", "Rt", "Rg"), "aio": ("Rt", "Rg")}
+TLS_OUTCOMES = ("Tv", "Tw", "Ds", "Ls")       # need TLS transports
 TERMINAL_OK = ("G", "M")
 APPLICABLE = {           # phases of an attempt that exist for an outcome
     "R": ("delay", "inflight"), "Rx": ("delay", "inflight"),
@@ -53,11 +67,43 @@ APPLICABLE = {           # phases of an attempt that exist for an outcome
     "Hde": ("delay", "inflight", "connected"), "He": ("delay", "inflight", "connected"),
     "A": ("delay", "inflight", "connected", "handshaken"),
 }
+for _o in ("Rr", "Rt", "Rg"):
+    APPLICABLE[_o] = ("delay", "inflight")
+for _o in ("Tv", "Tw", "Ds"):
+    APPLICABLE[_o] = ("delay", "inflight", "connected")     # (asyncio Tv/Tw: no 'connected' phase - the connect call itself fails)
 PRESESSION = tuple("D%d%s" % (_p, _c) for _p in (0, 1, 2) for _c in "cu")
 for _o in PRESESSION:
     APPLICABLE[_o] = ("delay", "inflight", "connected")
 for _o in JOINING:
     APPLICABLE[_o] = PHASES
+
+
+def failure_reason(fw, why):
+    """The exception the network boundary reports, as the real framework builds it (classes and args probed against a real
+    asyncio loop / a real twisted.protocols.tls.TLSMemoryBIOProtocol).  -> (exception, 'native' | 'tls')"""
+    if fw == "aio":
+        import socket
+        import ssl
+        table = {
+            "r": lambda: ConnectionRefusedError(111, "Connect call failed ('127.0.0.1', 9000)"),
+            "t": lambda: TimeoutError(110, "Connect call failed ('127.0.0.1', 9000)"),
+            "g": lambda: socket.gaierror(-2, "Name or service not known"),
+            "v": lambda: ssl.SSLCertVerificationError(1, "[SSL: CERTIFICATE_VERIFY_FAILED] certificate verify failed: self-signed certificate (_ssl.c:1000)"),
+            "w": lambda: ssl.SSLError(1, "[SSL: WRONG_VERSION_NUMBER] wrong version number (_ssl.c:1000)"),
+            "s": lambda: ssl.SSLError(1, "[SSL: DECRYPTION_FAILED_OR_BAD_RECORD_MAC] decryption failed or bad record mac (_ssl.c:2580)"),
+        }
+    else:
+        from OpenSSL import SSL
+        from twisted.internet import error
+        table = {
+            "r": lambda: error.ConnectionRefusedError("Connection refused"),
+            "t": lambda: error.TimeoutError(),
+            "g": lambda: error.DNSLookupError("address 'router.invalid' not found: [Errno -2] Name or service not known."),
+            "v": lambda: SSL.Error([("SSL routines", "", "certificate verify failed")]),
+            "w": lambda: SSL.Error([("SSL routines", "", "wrong version number")]),
+            "s": lambda: SSL.Error([("SSL routines", "", "decryption failed or bad record mac")]),
+        }
+    return table[why](), ("tls" if why in "vws" else "native")
 
 
 class Breach(Exception):
@@ -279,15 +325,39 @@ class Run:
             rec["t_end"] = net.now()
             return rec
         kind = self.tcfgs[p.tidx]["kind"]
+        fw = self.world.fw
         if outcome in ("R", "Rx"):
             p.refuse(RuntimeError("TLS negotiation failed") if outcome == "Rx" else None)
             rec["end"] = "refused"
+        elif outcome in ("Rr", "Rt", "Rg"):
+            exc, rec["reason_class"] = failure_reason(fw, outcome[1])
+            rec["reason"] = type(exc).__name__
+            p.refuse(exc)
+            rec["end"] = "refused"
+        elif outcome in ("Tv", "Tw") and fw == "aio":
+            # asyncio: the TLS handshake is part of create_connection(); its failure is the result of the connect call
+            exc, rec["reason_class"] = failure_reason(fw, outcome[1])
+            rec["reason"] = type(exc).__name__
+            p.refuse(exc)
+            rec["end"] = "tls-handshake-failed"
         else:
             early = outcome in ("He", "Hde") and self.world.fw == "aio"
             rc = p.establish(defer_result=early)
             rec["conn"] = len(net.conns) - 1
             self._stop_if(p.n, "connected")
-            if outcome in ("Hd", "Hde"):
+            if outcome in ("Tv", "Tw", "Ds"):
+                # Twisted Tv/Tw: the endpoint Deferred fired when TCP came up; the failed TLS handshake is a connectionLost
+                # with the OpenSSL error.  Ds (both): TLS-layer error on an established transport, before any session.
+                exc, rec["reason_class"] = failure_reason(fw, "s" if outcome == "Ds" else outcome[1])
+                rec["reason"] = type(exc).__name__
+                if outcome == "Ds":
+                    rc.ep.take_output()
+                if not rc.ep.lost:
+                    rc.ep._lose_with(exc)
+                    self.world.settle()
+                rec["presession"] = "reset"
+                rec["end"] = "tls-error-before-session" if outcome == "Ds" else "tls-handshake-failed"
+            elif outcome in ("Hd", "Hde"):
                 rc.lose(False)
                 rec["end"] = "dropped-before-handshake"
             elif outcome in PRESESSION:
@@ -368,6 +438,14 @@ class Run:
             rec["goodbye_unanswered"] = any(isinstance(m, list) and m and m[0] == 6 for m in rc.recv())
             rc.lose(outcome == "Lc")
             rec["end"] = "lost" if outcome == "L" else "lost-clean"
+        elif outcome == "Ls":
+            rec["goodbye_unanswered"] = any(isinstance(m, list) and m and m[0] == 6 for m in rc.recv())
+            exc, rec["reason_class"] = failure_reason(self.world.fw, "s")
+            rec["reason"] = type(exc).__name__
+            if not rc.ep.lost:
+                rc.ep._lose_with(exc)
+                self.world.settle()
+            rec["end"] = "lost-tls-error"
         elif outcome == "K":
             if not rc.ep.lost:
                 rc.router_said_goodbye = True
